@@ -34,6 +34,7 @@ type c10Issuer struct {
 	verify func(tokens.Token) error
 	typ    uint16
 	nk     int
+	bufs   [4][]byte
 }
 
 func c10Check(c *core.Ctx, is *c10Issuer, tok tokens.Token, class string, mustReject bool) {
@@ -43,7 +44,21 @@ func c10Check(c *core.Ctx, is *c10Issuer, tok tokens.Token, class string, mustRe
 	var err error
 	c.Eval(1)
 	c.Note("Verify " + is.name + " " + class)
-	pan, pv, where := core.Guard(func() { err = is.verify(tok) })
+	// the verifier reads every token out of the same four buffers, refilled in place (a server parsing each presented
+	// token into one receive buffer); the reference above judged private copies
+	fill := func(i int, v []byte) []byte {
+		if v == nil {
+			return nil
+		}
+		is.bufs[i] = append(is.bufs[i][:0], v...)
+		return is.bufs[i]
+	}
+	shared := tokens.Token{TokenType: tok.TokenType, Nonce: fill(0, tok.Nonce), Context: fill(1, tok.Context), KeyID: fill(2, tok.KeyID), Authenticator: fill(3, tok.Authenticator)}
+	pan, pv, where := core.Guard(func() { err = is.verify(shared) })
+	if !pan && (!bytes.Equal(shared.Nonce, tok.Nonce) || !bytes.Equal(shared.Context, tok.Context) || !bytes.Equal(shared.KeyID, tok.KeyID) || !bytes.Equal(shared.Authenticator, tok.Authenticator)) {
+		c.Violation("verify:token-written:"+is.name, "Verify modified the token it was given", map[string]any{"issuer": is.name, "class": class})
+		return
+	}
 	detail := map[string]any{"issuer": is.name, "class": class, "token_type": tok.TokenType, "nonce": core.Hex(tok.Nonce), "context": core.Hex(tok.Context), "key_id": core.Hex(tok.KeyID), "authenticator": core.Hex(tok.Authenticator)}
 	if pan {
 		detail["panic"] = pv
@@ -87,10 +102,10 @@ func runC10(c *core.Ctx) {
 	for i := 0; i < nkeys; i++ {
 		k1 := VOPRFKey(oprf.SuiteP384, setup.Bytes(32))
 		i1 := type1.NewBasicPrivateIssuer(k1)
-		iss1 = append(iss1, &c10Issuer{fmt.Sprintf("type1#%d", i), oprf.SuiteP384, k1, i1.Verify, 1, 48})
+		iss1 = append(iss1, &c10Issuer{fmt.Sprintf("type1#%d", i), oprf.SuiteP384, k1, i1.Verify, 1, 48, [4][]byte{}})
 		k5 := VOPRFKey(oprf.SuiteRistretto255, setup.Bytes(32))
 		i5 := type5.NewBatchedPrivateIssuer(k5)
-		iss5 = append(iss5, &c10Issuer{fmt.Sprintf("type5#%d", i), oprf.SuiteRistretto255, k5, i5.Verify, 5, 64})
+		iss5 = append(iss5, &c10Issuer{fmt.Sprintf("type5#%d", i), oprf.SuiteRistretto255, k5, i5.Verify, 5, 64, [4][]byte{}})
 	}
 	all := append(append([]*c10Issuer{}, iss1...), iss5...)
 
